@@ -248,3 +248,23 @@ _run_c14 = run
 
 def run(ctx):
     return _tsx.combined(ctx, _run_c14, "C14")
+
+
+# --- SCD ops (concurrent signing through ONE scdaemon token: token/scdtoken over lib/assuan against a fake scdaemon): a further
+# correspondence under the pseudo-property C14SCD, checklib/models/scd.py; theorems Relic.Props.C14.scd_sign_pair_atomic /
+# scd_sign_pair_not_atomic_without_lock; T-gen tools/extractscd -> Relic.Generated.ScdLocks (scd_sign_holds_token_lock_generated)
+import composite as _composite, scd as _scd
+UNPROVED = UNPROVED + _scd.UNPROVED["C14"]
+_run_c14_scd, _gen_c14_scd = run, generate
+
+
+def generate(ctx):
+    r = _gen_c14_scd(ctx)
+    _scd.generate(ctx)
+    return r
+
+
+def run(ctx):
+    own, none = _composite.split_replay(ctx, ["scd"])
+    cov, f, k = ({"evaluations": 0, "distinct_nontrivial": 0}, [], []) if none else _run_c14_scd(own)
+    return _scd.second(ctx, "C14", cov, f, k)
